@@ -35,8 +35,9 @@ import socketserver
 
 logging.disable(logging.CRITICAL)
 
-START, STOP, REQUEST, STOP_BUSY = 0, 1, 2, 4
-OPNAME = {0: "start", 1: "stop", 2: "request", 3: "tick", 4: "stop_while_handler_blocks"}
+START, STOP, REQUEST, STOP_BUSY, START_PORT_TAKEN = 0, 1, 2, 4, 5
+OPNAME = {0: "start", 1: "stop", 2: "request", 3: "tick", 4: "stop_while_handler_blocks",
+          5: "start_while_port_is_taken"}
 
 
 # ============================================================================ real-server histories
@@ -197,6 +198,40 @@ def run_history(kind, h):
                     raised = 1
                 else:
                     expect_running = 1 if o == START else 0
+            elif o == START_PORT_TAKEN:
+                # start() while a foreign socket holds the port: bind fails; the call must raise (unless the server
+                # is already running), release everything it took, and leave the object as it was
+                foreign = None
+                if not expect_running:
+                    typ = real_socket.SOCK_DGRAM if kind == "tftp" else real_socket.SOCK_STREAM
+                    foreign = real_socket.socket(real_socket.AF_INET6, typ)
+                    foreign.bind(("::1", port))
+                    if kind != "tftp":
+                        foreign.listen(1)
+                done = []
+
+                def call_start():
+                    try:
+                        srv.start()
+                        done.append(0)
+                    except OSError:
+                        done.append(1)
+                    except BaseException:      # noqa
+                        done.append(2)
+                th = threading.Thread(target=call_start, daemon=True)
+                th.start()
+                th.join(5.0)
+                if foreign is not None:
+                    foreign.close()
+                if th.is_alive():
+                    hang = 1
+                    baseline.add(th)
+                elif done and done[0] == 2:
+                    raised = 1
+                else:
+                    served = 1 if (done and done[0] == 1) else 0       # "the call raised OSError"
+                    if foreign is None:
+                        expect_running = 1
             elif o == STOP_BUSY:
                 # stop() while the main thread sits in a request handler: has stop() returned, with the main
                 # thread still alive, before the handler is released (deadline 1.5 s)?
@@ -712,6 +747,11 @@ class C20(Check):
                 for _ in range(16):
                     n = rng.choice([5, 6])
                     yield {"kind": "seq", "srv": kind, "h": [rng.choice((START, STOP, REQUEST, START, STOP)) for _ in range(n)]}
+        # start() while the port is taken by a foreign socket (bind fails), before/after/between the other calls
+        for kind in ("tftp", "http"):
+            for h in ([START_PORT_TAKEN, START, REQUEST, STOP], [START, START_PORT_TAKEN, STOP, START_PORT_TAKEN, START, REQUEST],
+                      [START_PORT_TAKEN, START_PORT_TAKEN, STOP, START, STOP]):
+                yield {"kind": "seq", "srv": kind, "h": h}
         # stop() while a request handler blocks on the main thread (costs ~1.5 s each)
         yield {"kind": "seq", "srv": "tftp", "h": [START, STOP_BUSY]}
         yield {"kind": "seq", "srv": "tftp", "h": [START, REQUEST, STOP_BUSY, START, REQUEST]}
